@@ -157,7 +157,7 @@ Fixpoint hist_walk (hs : list hobs) (w : hworld) : bool * bool :=
   | HDelete f :: t => hist_walk t (delete_file unit snapshot snapshot f w)
   | HLoad f loaded :: t =>
       let '(m, sp) := hist_walk t w in
-      (osnap_eqb (h_load w f) loaded && m, sp)
+      (osnap_eqb (h_load w f) loaded && m, osnap_eqb (h_load w f) loaded && sp)
   end.
 Definition hist_ok (hs : list hobs) : bool * bool :=
   hist_walk hs (World (Snap [] (FUnit 0 (1 # 1))) [] []).
